@@ -700,6 +700,17 @@ func famC13(t *testing.T) []netFamily {
 					h.Recv(1, q, ProofSpec{0, commitKey(v)}, h.latestKnown(1, 0))
 				}
 			}
+			// the acknowledgement of the mock application presented to the token applications (port edited on
+			// the way back): its bytes do not decode as a token acknowledgement, the message must fail
+			// (added after the coverage audit: the "undecodable acknowledgement" branch had no input)
+			h.Recv(1, d, ProofSpec{0, commitKey(d)}, h.latestKnown(1, 0))
+			h.UpdateClient(0, 1)
+			for _, port := range []string{"NFT", "MT"} {
+				q := d
+				q.Port = port
+				h.Ack(0, q, mockAck, ProofSpec{1, ackKey(d)}, h.latestKnown(0, 1))
+			}
+			h.Ack(0, d, mockAck, ProofSpec{1, ackKey(d)}, h.latestKnown(0, 1))
 		}},
 	}
 }
